@@ -57,6 +57,9 @@ type runState struct {
 	// coverage: duplications of a process that holds two different channels with one identifier
 	dupSameIdent int
 	dups         int
+	// longest silence between two consecutive step events (and since the start of the run)
+	lastStep time.Time
+	maxGap   time.Duration
 }
 
 func newSink() *sink {
@@ -64,7 +67,7 @@ func newSink() *sink {
 }
 
 func (s *sink) begin(re *process.RuntimeEnvironment, seed uint64, profile string, budget uint64) *runState {
-	rs := &runState{re: re, tab: map[*process.Process]*entry{}, pend: map[chan process.Message]int{}, cpend: map[chan process.ControlMessage]int{}, seed: seed, profile: profile, budget: budget, fp: 1469598103934665603, rules: map[string]int{}, kinds: map[string]int{}}
+	rs := &runState{lastStep: time.Now(), re: re, tab: map[*process.Process]*entry{}, pend: map[chan process.Message]int{}, cpend: map[chan process.ControlMessage]int{}, seed: seed, profile: profile, budget: budget, fp: 1469598103934665603, rules: map[string]int{}, kinds: map[string]int{}}
 	s.mu.Lock()
 	s.runs[re] = rs
 	s.cur = rs
@@ -127,6 +130,13 @@ func (s *sink) Step(re *process.RuntimeEnvironment, p *process.Process) {
 		}
 		e.running = true
 		e.steps++
+		now := time.Now()
+		if !rs.lastStep.IsZero() {
+			if g := now.Sub(rs.lastStep); g > rs.maxGap {
+				rs.maxGap = g
+			}
+		}
+		rs.lastStep = now
 		kind := p.VerifBodyKind()
 		rs.kinds[kind]++
 		rs.ev(e.serial, 2)
@@ -191,6 +201,12 @@ func perturb(profile string, seed, serial, step uint64, kind string, nprov int) 
 		if nprov > 1 {
 			return 2, 100 + int(h>>8)%400
 		}
+	case "delay-call":
+		// a freshly spawned callee is held before its CALL step, so that whoever forwards to it
+		// or sends to it gets there first
+		if kind == "call" {
+			return 2, 100 + int(h>>8)%400
+		}
 	case "delay-print":
 		if kind == "print" && h%2 == 0 {
 			return 2, 50 + int(h>>8)%300
@@ -199,7 +215,7 @@ func perturb(profile string, seed, serial, step uint64, kind string, nprov int) 
 	return 0, 0
 }
 
-var profiles = []string{"none", "gosched", "sleep", "delay-fwd", "delay-provider", "delay-client", "delay-dup", "delay-print"}
+var profiles = []string{"none", "gosched", "sleep", "delay-fwd", "delay-provider", "delay-client", "delay-dup", "delay-print", "delay-call"}
 
 func (s *sink) Idle(re *process.RuntimeEnvironment, p *process.Process) {
 	if re.VerifCtxDone() {
